@@ -46,12 +46,10 @@ def concat_parts(parts):
         sel = nonempty if nonempty else parts[:1]
         if len(sel) == 1:
             return sel[0]
-        try:
-            from dask.dataframe.dispatch import concat as dd_concat
+        from dask.dataframe.dispatch import concat as dd_concat
 
-            return dd_concat(sel)  # what compute() uses: unions the categories of categorical columns
-        except Exception:
-            return pd.concat(sel)
+        # what compute() uses (unions the categories of categorical columns); if it raises, so does compute()
+        return dd_concat(sel)
     return parts
 
 
